@@ -36,6 +36,15 @@ Theorem C11_domain_v4_whole : forall a s,
 Proof. exact domain_v4. Qed.
 Print Assumptions C11_domain_v4_whole.
 
+(* ... so SameDomain between two IP literals is equality of whole addresses *)
+Theorem C11_same_domain_ip_iff : forall a b via,
+  wf_authority a = true -> wf_authority b = true ->
+  ip_authority a = true -> ip_authority b = true ->
+  permits PSameDomain (render_authority a) (render_authority b :: via) = true <->
+  to_lower (host_text (a_host a)) = to_lower (host_text (a_host b)).
+Proof. exact same_domain_ip_iff. Qed.
+Print Assumptions C11_same_domain_ip_iff.
+
 Theorem C11_domain_name_labels : forall a s,
   a_host a = HName s -> wf_authority a = true -> is_ip_literal (to_lower s) = false ->
   get_domain (render_authority a) =
